@@ -479,8 +479,31 @@ def run_scenario(tool, model, drv, sc, base):
                         os.rmdir(p)
                 elif os.path.lexists(p):
                     os.remove(p)
+            # the symlinks that stay are put in every state a present link can have: untouched (valid or dangling), re-targeted to
+            # something that exists, re-targeted to nothing: -m selects what is MISSING, a present link is never rewritten
+            link_now = {}
+            for d, s, k in elems:
+                if k != 'l' or (d, s, k) in lost:
+                    continue
+                p = os.path.join(root.encode(), d, s)
+                if not os.path.islink(p):
+                    continue
+                st = r2.random()
+                if st < 0.3:
+                    os.remove(p)
+                    os.symlink(b'no/such/place-%d' % len(link_now), p)
+                    cnt['fix_missing_links_retargeted_dangling'] += 1
+                elif st < 0.55:
+                    os.remove(p)
+                    os.symlink(root.encode() + b'/conf', p)
+                    cnt['fix_missing_links_retargeted_valid'] += 1
+                else:
+                    cnt['fix_missing_links_untouched_' + ('valid' if os.path.exists(p) else 'dangling')] += 1
+                link_now[(d, s)] = os.readlink(p)
             log = os.path.join(root, 'fixm.log')
             rc3, out3 = cm.run_tool(tool, root, ['fix', '-m'], log=log)
+            link_after = {(d, s): (os.readlink(os.path.join(root.encode(), d, s)) if os.path.islink(os.path.join(root.encode(), d, s)) else None)
+                          for d, s in link_now}
             lg = cm.parse_log(log)
             got = set(lg.get('status_recovered', []))
             exp = set((d, s) for d, s, k in lost)
@@ -493,6 +516,10 @@ def run_scenario(tool, model, drv, sc, base):
                 bad('cmd_fixm', 'fix / fix -m failed with exit %d / %d' % (rc2, rc3), {'output': out3.decode('latin1')[-400:]})
             elif got != exp:
                 bad('cmd_fixm_sel', 'fix -m recreated %s, missing were %s' % (cm.fmt(got), cm.fmt(exp)), {'lost': cm.fmt(exp), 'recreated': cm.fmt(got)})
+            elif link_after != link_now:
+                ch = sorted(k for k in link_now if link_now[k] != link_after[k])
+                bad('cmd_fixm_link', 'fix -m rewrote the symbolic links %s, which are present on the disk (not missing): %s' %
+                    (cm.fmt(ch), [(link_now[k], link_after[k]) for k in ch][:3]), {'lost': cm.fmt(exp)})
             elif got != exp_mod:
                 bad('cmd_fixm_model_drift', 'MODEL-DRIFT: state_filter model (-m) selects %s, fix -m recreated %s' % (cm.fmt(exp_mod), cm.fmt(got)), no_input=True)
         # ---- -e : silently corrupt some files, let scrub mark the blocks bad, then check -e must look at exactly those files
